@@ -85,5 +85,7 @@ class C14(CacheProp):
     def nontrivial(self, case, il):
         return any(o.startswith("sweep") and "evict:" in l for o, l in zip(case.ops, il))
 
+    stress_kinds = ("early", "sweeprace")
+
 
 PROP = C14()
